@@ -53,7 +53,7 @@ RULE = (
     "operands, locals-like wrappers) with type-correct args, UTxO sets and a fee; for each, every permutation "
     "of the stages {args, inputs, fees, compiler-ops} x every subset of reduce positions (quick: a third, "
     "always including the repository's own two orders; thorough: all 384) is run on the real crates and the "
-    "canonical final templates compared; reduce∘reduce compared with reduce. Non-trivial = the template has "
+    "canonical final templates compared; reduce∘reduce compared with reduce; a twin sweep (two or three entries of one list that become equal only once the arguments are in and reduced, in signers / references / outputs / metadata). Non-trivial = the template has "
     "an unresolved parameter node; distinct = distinct (template, args, fee)"
 )
 
